@@ -129,6 +129,30 @@ theorem c08_identity_param (arg : List Nat) : expandOnce [[120]] none [120] [arg
   | cons a as => simp [rExpand, rExpandGo, addSubst]
 
 open IgVerif.Exp in
+/-- **Parameter substitution**, any number of parameters: a body that is the name of the `i`-th
+parameter (an identifier other than `__VA_ARGS__`) expands to the `i`-th argument; to nothing if
+fewer arguments were given -/
+theorem c08_param_substitution (names : List (List Nat)) (c : Nat) (rest : List Nat) (i : Nat) (args : List (List Nat))
+    (hc : isIdStart c = true) (hr : ∀ x ∈ rest, isIdChar x = true)
+    (hva : (c :: rest) ≠ vaArgs) (hi : indexOf names (c :: rest) = some i) :
+    expandOnce names none (c :: rest) args = args.getD i [] :=
+  expand_param_only names c rest i args hc hr hva hi
+
+open IgVerif.Exp in
+/-- **`#` on any parameter**: `#define S(…, p_i, …) #p_i` — `S(args)` is the `i`-th argument
+stringified (what that literal spells is `c08_stringify_roundtrip`); the empty string literal
+if the argument is missing -/
+theorem c08_hash_any_param (names : List (List Nat)) (c : Nat) (rest : List Nat) (i : Nat) (args : List (List Nat))
+    (hc : isIdStart c = true) (hr : ∀ x ∈ rest, isIdChar x = true)
+    (hva : (c :: rest) ≠ vaArgs) (hi : indexOf names (c :: rest) = some i) :
+    expandOnce names none (35 :: c :: rest) args = stringify (args.getD i []) :=
+  expand_hash_param names c rest i args hc hr hva hi
+
+-- `#define M(p0, p1) p1` with M(x, yz)
+example : Exp.indexOf [[112, 48], [112, 49]] [112, 49] = some 1 ∧
+    Exp.expandOnce [[112, 48], [112, 49]] none [112, 49] [[120], [121, 122]] = [121, 122] := by decide
+
+open IgVerif.Exp in
 /-- `#define CAT(a, b) a ## b`: `CAT(x, y)` is `x` and `y` joined without a blank, for all
 arguments — an empty one (a placemarker) leaves the other as it is -/
 theorem c08_paste_params (x y : List Nat) : expandOnce [[97], [98]] none [97, 32, 35, 35, 32, 98] [x, y] = x ++ y := by
